@@ -168,13 +168,14 @@ PROPS = {
         "lean_modules": ['HotstuffModel.Properties.C02'],
         "engines": [{'name': 'cons'}],
         "level": "proof",
-        "level_text": "PARTIAL at the single-node level (see assumptions): the per-call and no-genesis clauses are theorems for arbitrary inputs; exactly-once / gap-free over the node's whole life is decided by the monitor on the real code and by the global theorem of C01.",
+        "level_text": "Proved in full on the model: per-call specification of commit for arbitrary inputs (single node) AND, in the global model (honest nodes run the node model, Byzantine nodes of total stake <= f send anything they can sign), the delivery log of every honest node is the parent-linked chain from genesis with strictly increasing rounds and no duplicates (HS.C02.delivery_log_is_chain_from_genesis, deliveries_strictly_increasing_no_duplicates).",
         "trusted_base": TB_COMMON + [
             "ideal signatures and collision-free digests (DESIGN 3.4): ed25519 and SHA-512 are modelled, not verified",
             "tokio mpsc channels are FIFO, select! picks any ready branch, a task handles one message at a time; the micro-step model over-approximates every schedule",
+            "global model (Proofs/Global.lean): Byzantine nodes hold at most f stake and cannot forge honest signatures",
         ],
-        "assumptions": ["the global clause (the attachment point is the previously delivered block; rounds grow along the committed chain) needs agreement among honest nodes and is part of C01's global model; locally proved: no genesis, each commit call delivers a parent-linked run above the watermark that attaches at the watermark", 'RocksDB returns what was written (store model keyed by digest)'],
-        "explanation": 'Per-call specification of Core::commit (ancestor walk with hash-chain fuel, proved never to exhaust) + invariants for every event list; the cons engine runs chain shapes with gaps / several uncommitted ancestors / sync-resumed blocks against the model and checks on the REAL commit channel: no genesis, parent = previous delivery, rounds increase, no duplicates.',
+        "assumptions": ['RocksDB returns what was written (store model keyed by digest)', 'at most f stake is Byzantine (needed for the whole-life clause, which rests on agreement C01); the per-call clauses need no such assumption'],
+        "explanation": 'Per-call specification of Core::commit (ancestor walk with hash-chain fuel, proved never to exhaust) + invariants for every event list; per-step specification of the commit channel (CommitSeq.cspec_step) composed with agreement (C01) over the global model gives the whole-life clause. The cons engine runs chain shapes with gaps / several uncommitted ancestors / sync-resumed blocks against the model and checks on the REAL commit channel: no genesis, parent = previous delivery, rounds increase, no duplicates.',
     },
     "C05": {
         "lean_modules": ['HotstuffModel.Properties.C05'],
@@ -222,7 +223,7 @@ PROPS = {
     },
     "C15": {
         "lean_modules": ['HotstuffModel.Properties.C15', 'HotstuffModel.Properties.C15_decode'],
-        "engines": [{'name': 'codec'}, {'name': 'cons'}],
+        "engines": [{'name': 'codec'}, {'name': 'cons'}, {'name': 'fuzz'}],
         "level": "proof",
         "level_text": 'PARTIAL: proof of panic-freedom of the models + differential/fuzz tie; Rust panics that are not source-visible (overflow, OOM) are not covered.',
         "trusted_base": TB_COMMON + [
